@@ -49,7 +49,7 @@ func ZZ_C15_Copies(sv *zzsv.T) {
 	}
 	mut := func(name string) *zzStmt { return stIncr(name, op, operand) }
 	var p *zzProg
-	scen := sv.Choice("scenario", 10)
+	scen := sv.Choice("scenario", 13)
 	switch scen {
 	case 0: // assignment copies
 		p = &zzProg{main: []*zzStmt{stSet("x", lit), stSet("y", xVar("x")), mut("y"), stT(xVar("y")), stRet(xVar("x"))}}
@@ -72,6 +72,16 @@ func ZZ_C15_Copies(sv *zzsv.T) {
 			main: []*zzStmt{stSet("x", lit), mut("x"), stSet("r", xCall("f", xVar("x"))), stT(xVar("r")), stRet(xVar("x"))}}
 	case 9: // remember the previous value of a counter inside a loop
 		p = &zzProg{main: []*zzStmt{stSet("x", lit), stSet("n", xLit(0)), stWhile(xBin("<", xVar("n"), xLit(2)), stSet("y", xVar("x")), mut("x"), stT(xVar("y")), stSet("n", xBin("+", xVar("n"), xLit(1)))), stRet(xVar("x"))}}
+	case 10: // the same literal written plain and negated
+		sv.Assume(kind != 2)
+		p = &zzProg{main: []*zzStmt{stSet("x", lit), stSet("y", xNeg(lit)), mut("x"), stT(xVar("y")), stT(lit), stRet(xVar("x"))}}
+	case 11: // negated twice
+		sv.Assume(kind != 2)
+		p = &zzProg{main: []*zzStmt{stSet("x", xNeg(lit)), stSet("y", xNeg(lit)), mut("x"), stT(xVar("x")), stT(xBin("+", lit, xLit(0))), stRet(xVar("y"))}}
+	case 12: // negated inside a function, plain outside
+		sv.Assume(kind != 2)
+		p = &zzProg{funcs: []*zzFunc{{name: "f", body: []*zzStmt{stRet(xNeg(lit))}}},
+			main: []*zzStmt{stSet("x", lit), stSet("r", xCall("f")), mut("x"), stT(xVar("r")), stSet("r", xCall("f")), stT(xVar("r")), stRet(xVar("x"))}}
 	default: // object field: y = F; y op; F unchanged
 		sv.Assume(kind == 0)
 		p = &zzProg{main: []*zzStmt{stSet("y", xVar("F")), mut("y"), stT(xVar("y")), stRet(xVar("F"))}}
